@@ -49,13 +49,15 @@ def gen_case(rng: random.Random, tier: str) -> dict:
     vars_ = rng.sample(["x", "y", "A", "B", "S"], rng.randint(1, 4))
     wrap = {v: (rng.random() < 0.3 and v in L) for v in vars_}
 
+    cwrap = {v: rng.choice(["C({v})", "C({v})", "C({v}, contr.sum)", "C({v}, contr.poly)", "C({v}, contr.helmert)"]) for v in vars_}
+
     def nm(v):
-        return f"C({v})" if wrap[v] else v
+        return cwrap[v].format(v=v) if wrap[v] else v
 
     terms = [[nm(v) for v in rng.sample(vars_, rng.randint(1, min(3, len(vars_))))] for _ in range(rng.randint(1, 3))]
     used = [v for v in vars_ if any(nm(v) in t for t in terms)]
     f = " + ".join([rng.choice(["1", "0"])] + [":".join(t) for t in terms])
-    scen = rng.choice(["flip", "flip", "lost", "new", "new_null", "ok"])
+    scen = rng.choice(["flip", "flip", "lost", "new", "new_null", "ok", "permuted", "permuted"])
     m = 8
     target = rng.choice(used)
     change = None
@@ -83,6 +85,15 @@ def gen_case(rng: random.Random, tier: str) -> dict:
                     vals[1] = None
                 lv = sorted(set(v for v in vals if v is not None))
             change = catspec(vals, dts[target], lv)
+    if scen == "permuted":  # same level set, declared in another order (or as plain text): columns must not move
+        cats = [v for v in used if v in L]
+        if not cats:
+            scen = "ok"
+        else:
+            target = rng.choice(cats)
+            vals = [rng.choice(L[target]) for _ in range(m)]
+            perm = list(reversed(L[target])) if rng.random() < 0.6 else rng.sample(L[target], len(L[target]))
+            change = {"kind": "cat", "categories": perm, "values": vals, "ordered": rng.random() < 0.2}
     na = "ignore" if scen == "new_null" else rng.choice(["drop", "drop", "ignore"])
     return {"cols": cols, "formula": f, "output": rng.choice(["pandas", "numpy", "sparse"]), "scen": scen, "target": target,
             "label": nm(target), "change": change, "na": na, "wrapped": wrap.get(target, False), "tdtype": dts.get(target, "num"),
@@ -154,6 +165,17 @@ def judge(case) -> Outcome:
         if warned:
             out.see("warned_on_lost_levels")
         out.see("lost_checked")
+    elif scen == "permuted":
+        # reference: the same values supplied as plain text (no declared order at all)
+        vals = case["change"]["values"]
+        txt = [[n, ({"kind": "text", "dtype": "object", "values": vals} if n == target else c)] for n, c in newcols]
+        with quiet():
+            ref = spec.get_model_matrix(make_frame({"cols": txt, "index": None}))
+        if warned:
+            out.fail("c09.spurious_warning", f"{tag}: DataMismatchWarning although the level set is unchanged")
+        if not np.allclose(M2, dense(ref), equal_nan=True):
+            out.fail("c09.category_order_changes_encoding", f"{tag}: follow-up categorical with categories {case['change']['categories']} is encoded differently from the same values given as text (recorded level order must be used)")
+        out.see("permuted_checked")
     else:
         if warned:
             out.fail("c09.spurious_warning", f"{tag}: DataMismatchWarning although nothing changed")
